@@ -566,17 +566,32 @@ def walk(t):
 
 
 def static_regex_literal(g, static_lid):
-    """the literal handed to Regex::new in the initialiser closure of the given (generated) static"""
+    """the literal handed to Regex::new in the initialiser closure of the given (generated) static - or, when the
+    initialiser is a plain `LazyLock::new(<fn item>)`, in the one generated fn item next to the static that builds a Regex"""
     F = g.F
+
+    def literal_in(f):
+        for o in g.ex.paths(f['lid']):
+            terms = [c for c, _ in o.conds] + ([o.ret] if o.ret else [])
+            for c in terms:
+                for t in walk(c):
+                    if t[0] == 'call' and cpath(g.ex, t).endswith('Regex::new') and len(t[2]) == 1:
+                        a = strip_view(g.ex, t[2][0])
+                        if a[0] == 'str':
+                            return a[1]
+        return None
     for f in F.fns.values():
         if f['kind'] == 'Closure' and f['parent'] == static_lid:
-            for o in g.ex.paths(f['lid']):
-                for c, _ in o.conds:
-                    for t in walk(c):
-                        if t[0] == 'call' and cpath(g.ex, t).endswith('Regex::new') and len(t[2]) == 1:
-                            a = strip_view(g.ex, t[2][0])
-                            if a[0] == 'str':
-                                return a[1]
+            lit = literal_in(f)
+            if lit is not None:
+                return lit
+    st = [c for c in F.consts if c['lid'] == static_lid]
+    if st:
+        scope = st[0]['path'].rsplit('::', 1)[0]
+        sib = [f for f in F.fns.values() if f['kind'] == 'Fn' and f['path'].rsplit('::', 1)[0] == scope and str(f.get('span', '')).startswith('!')
+               and F.tys(f['output']).endswith('Regex')]
+        if len(sib) == 1:
+            return literal_in(sib[0])
     return None
 
 
